@@ -6,6 +6,9 @@ import XonshVerif.Model.Peg
 import XonshVerif.Proofs.PegConsume
 import XonshVerif.Proofs.PegSpec
 import XonshVerif.Proofs.PegSpecDet
+import XonshVerif.Proofs.PegComplete
+import XonshVerif.Proofs.PegTotal
+import XonshVerif.Proofs.PegMono
 import XonshVerif.Model.DriverPeg
 namespace XV.Peg
 variable (prog : Prog) (w : Array RTok)
@@ -268,12 +271,6 @@ example : SRule plainProg consW 0 0 (some 3) :=
 theorem peg_semantics_deterministic (prog : Prog) (w : Array RTok) (id p : Nat) (r1 r2 : Option Nat)
     (h1 : SRule prog w id p r1) (h2 : SRule prog w id p r2) : r1 = r2 := SRule.det h1 h2
 
-/-- what an answer says, if it says anything: `some (some e)` match ending at `e`, `some none` failure, `none` out of fuel / raised -/
-def Res.verdict : Res → Option (Option Nat)
-  | .ok e => some (some e)
-  | .fail _ => some none
-  | _ => none
-
 /-- **answers_do_not_depend_on_cache_or_fuel.**  In the plain fragment, two runs of the same rule at the same position -
     with ANY two amounts of fuel and ANY two sound memo caches (empty, or filled by whatever was parsed before) - that both
     answer give the SAME answer: it is the unique outcome of the semantics.  So memoisation can change how long a parse
@@ -299,10 +296,64 @@ theorem answers_do_not_depend_on_cache_or_fuel (prog : Prog) (w : Array RTok) (h
     | _ => simp [Res.verdict] at hb
   exact SRule.det d1 d2
 
+/-- **recogniser_complete_for_peg_semantics.**  The converse, on the pure fragment (`pureB`: plain, every action truthy, no
+    rule that peeks at its first token's location): whenever the semantics derives an outcome `r` for a rule at a position,
+    every run of that rule from a state at that position with a sound memo cache that holds no exceptional entry (the
+    initial state is one) EITHER runs out of fuel OR answers exactly `r` - it does not raise, does not fall off the token
+    list, and a memo hit gives the same answer. -/
+theorem recogniser_complete_for_peg_semantics (prog : Prog) (w : Array RTok) (hp : pureB prog = true) (id p : Nat) (r : Option Nat)
+    (h : SRule prog w id p r) (fuel : Nat) (s : St) (hpos : s.pos = p) (hc : CacheOK s) (hs : CSound prog w s) (hn : CNA s) :
+    (execRule prog w fuel id s).1 = .outOfFuel ∨ (execRule prog w fuel id s).1.verdict = some r := by
+  rcases SRule.cpl (pure_of_B prog hp) h fuel s hpos ⟨hc, hs, hn⟩ with h1 | h1
+  · exact Or.inl h1
+  · exact Or.inr h1.1
+
+/-- **recogniser_decides_peg_semantics.**  Total correctness from the start state: for a pure program that passes the
+    well-formedness certificate (`wfCert`, the hypothesis of `parser_total`), the semantics derives outcome `r` for a rule
+    at position 0 IF AND ONLY IF the recogniser answers `r` for all sufficiently large fuel. -/
+theorem recogniser_decides_peg_semantics (prog : Prog) (W : WfW) (hcert : wfCert prog W = true) (hp : pureB prog = true)
+    (w : Array RTok) (id : Nat) (b v : Bool) (r : Option Nat) :
+    SRule prog w id 0 r ↔ ∃ n, ∀ k, (execRule prog w (n + k) id (St.init w.size b v)).1.verdict = some r := by
+  constructor
+  · intro h
+    obtain ⟨n, hn⟩ := execRule_total (W := W) (w := w) hcert id (St.init w.size b v) (inv_fresh _ (Nat.zero_le _) rfl)
+    refine ⟨n, fun k => ?_⟩
+    rw [execRule_fuel_mono (prog := prog) (w := w) n k id _ hn]
+    rcases recogniser_complete_for_peg_semantics prog w hp id 0 r h n _ rfl (cacheOK_init _ _ _) (cSound_init w _ _ _) (cna_init _ _ _) with h1 | h1
+    · exact absurd h1 hn
+    · exact h1
+  · rintro ⟨n, hn⟩
+    have h0 := hn 0
+    have hs' := (specInv (prog := prog) w (plainB_of_pureB prog hp) n).rule id (St.init w.size b v) (cacheOK_init _ _ _) (cSound_init w _ _ _)
+    have hs : (∀ e, (execRule prog w n id (St.init w.size b v)).1 = .ok e → SRule prog w id 0 (some e)) ∧
+        (∀ m, (execRule prog w n id (St.init w.size b v)).1 = .fail m → SRule prog w id 0 none) := ⟨hs'.1.1, hs'.1.2⟩
+    clear hs'
+    rw [Nat.add_zero] at h0
+    generalize (execRule prog w n id (St.init w.size b v)).1 = res at h0 hs
+    cases res with
+    | ok e => simp only [Res.verdict] at h0; injection h0 with h0; subst h0; exact hs.1 e rfl
+    | fail m => simp only [Res.verdict] at h0; injection h0 with h0; subst h0; exact hs.2 m rfl
+    | _ => simp [Res.verdict] at h0
+
+/-- Non-vacuity of both hypotheses and of the equivalence: the two-rule program above is pure and well-formed, so the
+    derivation `SRule 0 0 (some 3)` on `a + a` is answered `ok 3` for all sufficiently large fuel. -/
+def plainW : WfW := { nullable := fun _ => false, lr := fun _ => false, rank := fun i => 1 - i }
+example : wfCert plainProg plainW = true := by decide +kernel
+example : pureB plainProg = true := by decide +kernel
+example : ∃ n, ∀ k, (execRule plainProg consW (n + k) 0 (St.init consW.size false false)).1.verdict = some (some 3) :=
+  (recogniser_decides_peg_semantics plainProg plainW (by decide +kernel) (by decide +kernel) consW 0 false false (some 3)).mp
+    ((recogniser_sound_from_start plainProg consW (by decide +kernel) 40 0 false false).1 3 (by decide +kernel))
+
 /-- the facts the driver command `progfacts` reports for every generated IR ARE the hypotheses of the two theorems above -/
 theorem driver_noFalsy_is_hypothesis (prog : Prog) : XV.Driver.progNoFalsy prog = noFalsyB prog := rfl
 theorem driver_plain_is_hypothesis (prog : Prog) : XV.Driver.progPlain prog = plainB prog := by
   unfold XV.Driver.progPlain plainB
+  congr 1; funext r
+  have h1 : (match r.deco with | .leftrec => false | _ => true) = (r.deco != .leftrec) := by cases r.deco <;> rfl
+  exact h1 ▸ rfl
+
+theorem driver_pure_is_hypothesis (prog : Prog) : XV.Driver.progPure prog = pureB prog := by
+  unfold XV.Driver.progPure pureB
   congr 1; funext r
   have h1 : (match r.deco with | .leftrec => false | _ => true) = (r.deco != .leftrec) := by cases r.deco <;> rfl
   exact h1 ▸ rfl
